@@ -292,6 +292,7 @@ def run(tier, seed, out, drv, facts):
         out.case(("direct", name, cls), fired, sample={"operation": name, "class": cls, "raised": fired})
         evaluate_after(out, f"direct:{name}:{cls}", f"fault of class {cls} at {name}", {"operation": name, "class": cls})
     other_thread_cases(out)
+    annotation_reuse_cases(out)
     # --- random histories of public-API operations, then probes
     n = 30000 if thorough else 200
     extra = history_ops(rng)
@@ -309,7 +310,11 @@ def run(tier, seed, out, drv, facts):
             else:
                 prog = gen_prog.rand_prog(rng, 2, max_stmts=3)
                 hist.append(prog)
-                _, resid = impl_prog.run_program(prog, "typeguard", rng, reset=False)
+                obs_, resid = impl_prog.run_program(prog, "typeguard", rng, reset=False)
+                internal = [o["v"] for o in obs_ if str(o.get("v", "")).startswith("internal:")]
+                if internal:
+                    out.violation(f"history:{internal[0]}", f"leaving a context block failed inside the library ({internal[0]}): an earlier operation of the program took the "
+                                  f"block's frame away", {"program": prog})
                 if resid != {"depth": 0, "flatten": False, "tp": False}:
                     break
         out.case(("history", json.dumps(hist, sort_keys=True)), any(isinstance(h, str) for h in hist),
@@ -320,6 +325,49 @@ def run(tier, seed, out, drv, facts):
             culprit = "decorate-old-style-generator" if "decorate-old-style-generator" in names else ",".join(sorted(set(names)))
             out.violation(f"history:annotation-changed:{culprit}", f"after the history (API operations {names}) the probe annotation answers {pa}", {"history": hist, "probe": pa})
         evaluate_after(out, "history:state", "random history of public-API operations", {"history": hist})
+
+
+def annotation_reuse_cases(out):
+    """one annotation OBJECT checked again in another context: the verdict depends on that context's bindings and on the
+    current call's arguments, never on what the object answered earlier for the same shape"""
+    import typeguard
+    from jaxtyping import jaxtyped
+
+    def verdict(ann, n, size):
+        with jaxtyped("context"):
+            impl.check_once(Duck((n,), "float32"), Float[Duck, "n"])
+            return impl.check_once(Duck((size,), "float32"), ann)
+
+    for dims, f in (("n+1", lambda n: n + 1), ("2*n", lambda n: 2 * n), ("n-1 _", None), ("#n+1", lambda n: n + 1)):
+        for first, second in ((3, 5), (5, 3), (2, 2)):
+            ann = Float[Duck, dims]          # one object, used in both contexts
+            if f is None:
+                continue
+            size = f(first)
+            v1 = verdict(ann, first, size)
+            v2 = verdict(ann, second, size)
+            want2 = "T" if f(second) == size else "F"
+            out.case(("annotation-reuse", dims, first, second), True, sample={"dims": dims, "first_n": first, "second_n": second, "size": size, "verdicts": [v1, v2]})
+            if v1 != "T" or v2 != want2:
+                out.violation(f"annotation-reuse:{dims}", f"Float[Duck, {dims!r}] (one object) on an axis of size {size}: with n={first} it answers {v1} (must be T), then in a fresh "
+                              f"context with n={second} it answers {v2} (must be {want2})", {"scenario": "annotation-reuse", "dims": dims, "first": first, "second": second})
+    # the call's arguments: `{size}`
+    @jaxtyped(typechecker=typeguard.typechecked)
+    def f(size: int, x: Float[Duck, "{size}"]):
+        return "ok"
+
+    def call(size, n):
+        try:
+            return f(size, Duck((n,), "float32"))
+        except jaxtyping.TypeCheckError:
+            return "tce"
+
+    seq = [(3, 3, "ok"), (4, 3, "tce"), (3, 3, "ok"), (4, 4, "ok"), (3, 4, "tce")]
+    got = [call(s_, n) for s_, n, _ in seq]
+    out.case(("annotation-reuse", "{size}"), True, sample={"calls": seq, "observed": got})
+    if got != [w for _, _, w in seq]:
+        out.violation("annotation-reuse:{size}", f"calls (size, length) {[(a, b) for a, b, _ in seq]} of one decorated function give {got}, must give {[w for _, _, w in seq]}",
+                      {"scenario": "annotation-reuse", "dims": "{size}"})
 
 
 def other_thread_cases(out):
@@ -380,6 +428,7 @@ def other_thread_cases(out):
 def replay(rep, out, drv, facts):
     if "scenario" in rep:
         other_thread_cases(out)
+        annotation_reuse_cases(out)
         return
     if "program" in rep:
         got, _ = impl_prog.run_program(rep["program"], "typeguard", None, reset=False)
